@@ -11,6 +11,7 @@ func init() {
 			"race between instances and output a function of configuration and input only. NOT decided: races inside user-supplied readers/writers; the Go runtime.",
 		run: func(c *Ctx, r *Report) {
 			ruleGlobals(c, r, "")
+			ruleInitClosures(c, r, "")
 			ruleLoggerLockset(c, r, "")
 			ruleNondeterminism(c, r, "")
 		},
